@@ -10,6 +10,7 @@ mod common;
 mod c16_vec;
 mod sched;
 mod progs;
+mod event;
 
 use sched::*;
 
